@@ -1420,3 +1420,107 @@ def u_get_server_instance(ip: Interp, th: ServerTheory):
             addr_ok = ok and all(isinstance(a, RefV) for a in ss[0][1][1:]) and [a.t for a in ss[0][1][1:]] == [f.t for f in fields.values()] if ok else False
             ip.require(s, f"{cls_}:starts-exactly-one-server-with-the-given-connection-callback-at-its-own-address-and-returns-it",
                        z3.And(z3.BoolVal(bool(addr_ok)), ss[0][1][0].t == cb.t, v.t == started) if ok and isinstance(v, RefV) else z3.BoolVal(False), P)
+
+
+# ======================================================================================================
+# documented defaults of the public API (mechanical, from the real signatures): a command that omits an option, and a caller
+# that omits an argument, get exactly these (C04 num=1, C05 num_concurrent=1, C12 return_exceptions=False, C09/C10 group_name
+# None -> generated name, C06/C07 msg=None, C01 pool_size=inf)
+# ======================================================================================================
+PUBLIC_DEFAULTS = {
+    "pool.BaseTaskPool.__init__": {"pool_size": "inf", "name": None},
+    "pool.BaseTaskPool.flush": {"return_exceptions": False},
+    "pool.BaseTaskPool.gather_and_close": {"return_exceptions": False},
+    "pool.BaseTaskPool.cancel": {"msg": None},
+    "pool.BaseTaskPool.cancel_group": {"msg": None},
+    "pool.BaseTaskPool.cancel_all": {"msg": None},
+    "pool.BaseTaskPool._start_task": {"group_name": "DEFAULT_TASK_GROUP", "ignore_lock": False, "end_callback": None, "cancel_callback": None},
+    "pool.BaseTaskPool._check_start": {"awaitable": None, "function": None, "ignore_lock": False},
+    "pool.TaskPool.apply": {"args": (), "kwargs": None, "num": 1, "group_name": None, "end_callback": None, "cancel_callback": None},
+    "pool.TaskPool.map": {"num_concurrent": 1, "group_name": None, "end_callback": None, "cancel_callback": None},
+    "pool.TaskPool.starmap": {"num_concurrent": 1, "group_name": None, "end_callback": None, "cancel_callback": None},
+    "pool.TaskPool.doublestarmap": {"num_concurrent": 1, "group_name": None, "end_callback": None, "cancel_callback": None},
+    "pool.SimpleTaskPool.__init__": {"args": (), "kwargs": None, "end_callback": None, "cancel_callback": None, "pool_size": "inf", "name": None},
+    "parser.ControlParser.add_class_commands": {"public_only": True, "omit_members": (), "member_arg_name": "CMD"},
+    "parser.ControlParser.add_function_command": {"omit_params": "OMIT_PARAMS_DEFAULT"},
+    "parser.ControlParser.add_function_args": {"omit": "OMIT_PARAMS_DEFAULT"},
+    "parser.ControlParser.__init__": {"terminal_width": None},
+    "helpers.execute_optional": {"args": (), "kwargs": None},
+}
+MODULE_CONSTANTS = {"parser": {"OMIT_PARAMS_DEFAULT": ("self",)}, "constants": {"CMD": "command", "CMD_OK": b"ok", "DEFAULT_TASK_GROUP": "default"}}
+
+
+def _defaults_unit(ip: Interp, th: ControlTheory):
+    st = th.initial()
+    P = ("C04", "C05", "C09", "C12", "C16", "C17")
+    for q, want in PUBLIC_DEFAULTS.items():
+        fi = ip.repo.functions.get(q)
+        if fi is None:
+            ip.require(st, f"defaults:{q}:function-exists", z3.BoolVal(False), P)
+            continue
+        a = fi.node.args
+        pos = a.posonlyargs + a.args
+        got = {}
+        for p_, d in zip(pos[len(pos) - len(a.defaults):], a.defaults):
+            got[p_.arg] = d
+        for p_, d in zip(a.kwonlyargs, a.kw_defaults):
+            if d is not None:
+                got[p_.arg] = d
+        for name, val in want.items():
+            d = got.get(name)
+            if d is None:
+                ok = False
+            elif isinstance(val, str) and val in ("inf", "DEFAULT_TASK_GROUP", "CMD", "OMIT_PARAMS_DEFAULT"):
+                ok = isinstance(d, _ast.Name) and d.id == val
+            else:
+                try:
+                    ok = _ast.literal_eval(d) == val and type(_ast.literal_eval(d)) is type(val)
+                except Exception:
+                    ok = False
+            ip.require(st, f"defaults:{q.split('.', 1)[1]}({name}={val!r})", z3.BoolVal(bool(ok)), P, meta={"found": _ast.unparse(d) if d is not None else "no default"})
+    for mod, consts in MODULE_CONSTANTS.items():
+        for name, val in consts.items():
+            ip.require(st, f"constants:{mod}.{name}=={val!r}", z3.BoolVal(ip.repo.consts.get(mod, {}).get(name) == val), P, meta={"found": repr(ip.repo.consts.get(mod, {}).get(name))})
+
+
+UNITS.append(Unit("api.documented-defaults", _defaults_unit, ("C04", "C05", "C09", "C12", "C16", "C17"), list(PUBLIC_DEFAULTS), theory_factory=ControlTheory,
+                  trusted=["defaults are read from the real signatures (AST); `inf` is math.inf"]))
+
+
+# ---- the concrete servers' constructors set what _get_server_instance / _final_callback read, and initialise the base ------
+@srv_unit("server.TCP/UnixControlServer.__init__", ("C16", "C18"), ["server.TCPControlServer.__init__", "server.UnixControlServer.__init__", SRV + "__init__"])
+def u_server_init(ip: Interp, th: ServerTheory):
+    P = ("C16", "C18")
+    from .control_theory import SuperObjV  # noqa: F401
+
+    def super_init(s, fr, pos, kws, node):
+        s.trace.append(("super.__init__", list(pos), dict(kws)))
+        return [(s, NoneV())]
+
+    th.hooks["super.__init__"] = super_init
+    th.hooks["Path"] = lambda s, fr, pos, kws, node: [(s, RefV(z3.Function("Path_of", Ref, Ref)(ip.deref(s, pos[0]).t)))]
+    pool = RefV(z3.Const("POOL", Ref))
+    for cls_, params, fields in (("TCPControlServer", {"host": RefV(fresh("a_host", Ref)), "port": RefV(fresh("a_port", Ref))}, ("_host", "_port")),
+                                 ("UnixControlServer", {"socket_path": RefV(fresh("a_socket_path", Ref))}, ("_socket_path", "_start_unix_server"))):
+        st = th.initial()
+        st.sh = {f: RefV(fresh("unset", Ref)) for f in fields}
+        unset = {f: st.sh[f].t for f in fields}
+        # `from asyncio.streams import start_unix_server` inside the constructor: the imported function as an opaque object
+        ip.consts["start_unix_server"] = RefV(z3.Const("asyncio.streams.start_unix_server", Ref))
+        args = {"pool": pool, "server_kwargs": KwV({}), **params}
+        orig = th.may_set_field
+        for s, v in ip.exec_function(st, ip.repo.get(f"server.{cls_}.__init__"), SelfV(cls_), args):
+            si = [e for e in s.trace if e[0] == "super.__init__"]
+            ok = not isinstance(v, Exit) and len(si) == 1 and len(si[0][1]) == 1 and isinstance(si[0][1][0], RefV)
+            ip.require(s, f"{cls_}.__init__:initialises-the-base-with-the-pool-once", z3.And(z3.BoolVal(ok), si[0][1][0].t == pool.t) if ok else z3.BoolVal(False), P)
+            for f in fields:
+                val = s.sh[f]
+                ip.require(s, f"{cls_}.__init__:sets-{f}", z3.BoolVal(not (isinstance(val, RefV) and z3.eq(val.t, unset[f]))), P)
+            if cls_ == "TCPControlServer":
+                ip.require(s, "TCPControlServer.__init__:host-and-port-are-the-ones-given", z3.And(s.sh["_host"].t == params["host"].t, s.sh["_port"].t == params["port"].t) if all(isinstance(s.sh[f], RefV) for f in fields) else z3.BoolVal(False), P)
+    # base class: remembers pool and kwargs, no server yet
+    st = th.initial()
+    st.sh = {"_pool": RefV(fresh("u0", Ref)), "_server_kwargs": KwV({"stale": NoneV()}), "_server": RefV(fresh("u2", Ref))}
+    kw = KwV({})
+    for s, v in ip.exec_function(st, ip.repo.get(SRV + "__init__"), SelfV("ControlServer"), {"pool": pool, "server_kwargs": kw}):
+        ip.require(s, "ControlServer.__init__:remembers-the-pool,no-server-yet", z3.And(z3.BoolVal(not isinstance(v, Exit)), s.sh["_pool"].t == pool.t, s.sh["_server"].t == NONE) if isinstance(s.sh["_server"], RefV) else z3.BoolVal(False), P)
